@@ -2,6 +2,7 @@ from __future__ import annotations
 import copy
 
 import enum
+import re
 from typing import Dict, List
 import operator
 import pathlib
@@ -46,15 +47,29 @@ def _argument_to_json_like(arg, depth=0):
         return [_argument_to_json_like(i, depth + 1) for i in arg]
     elif isinstance(arg, dict):
         escape = False
-        if depth < 2 and len(arg) == 1:
-            key = next(iter(arg))
-            escape = isinstance(key, str) and key.lower().split(".")[0] == "path"
+        is_path_like = False
+        if depth < 2:
+            if len(arg) == 1:
+                key = next(iter(arg))
+                is_path_like = isinstance(key, str) and key.lower().split(".")[0] == "path"
+            # (a key that itself contains the escape code is un-escaped by `from_spec`, so it
+            # is written escaped once more)
+            escape = is_path_like or any(
+                isinstance(k, str) and "\\path" in k.lower() for k in arg
+            )
         # (`from_spec` does not look for data path specifications inside an escaped mapping)
         depth = 2 if escape else depth + 1
         arg = {k: _argument_to_json_like(v, depth) for k, v in arg.items()}
         if escape:
-            arg = {"\\" + k: v for k, v in arg.items()}
+            arg = {_escape_key(k, is_path_like): v for k, v in arg.items()}
     return arg
+
+
+def _escape_key(key, is_path_like):
+    if not isinstance(key, str):
+        return key
+    key = re.sub(r"\\path", lambda m: "\\" + m.group(), key, flags=re.I)
+    return "\\" + key if is_path_like else key
 
 
 def _type_exact(value):
